@@ -50,7 +50,9 @@ def rule_break(ctx):
     qn = C("Formula::QuantifiedFormula", quantification=C("Quantification", quantifier=C("Quantifier::Forall"), variables=VS), formula=FB)
     q = run(qn)
     refq = ("call", "Iterator::map", (("call", "ht::break_equivalences_formula", (FB,)), ("closure", ("f",), ("call", "Formula::quantify", (("param", "f"), C("Quantifier::Forall"), VS)))))
-    ctx.add("TPL", "break:forall", q == refq, site, "forall V F  =>  forall V F_i for every part F_i of F (same variables)", construct=q)
+    from .. import comp as _comp
+    _comp.use(fx)
+    ctx.add("TPL", "break:forall", q == refq or _comp.canon(q) == _comp.canon(refq), site, "forall V F  =>  forall V F_i for every part F_i of F (same variables)", construct=q)
     others = {"exists": C("Formula::QuantifiedFormula", quantification=C("Quantification", quantifier=C("Quantifier::Exists"), variables=VS), formula=FB),
               "atomic": C("Formula::AtomicFormula", **{"0": ("param", "$a")}), "negation": C("Formula::UnaryFormula", connective=Q, formula=FB)}
     for conn in fx.variants("syntax_tree::fol::sigma_0::BinaryConnective"):
@@ -59,18 +61,21 @@ def rule_break(ctx):
     bad = {k_: sym.pretty(run(n_))[:100] for k_, n_ in others.items() if run(n_) != ("list", (n_,))}
     ctx.add("TPL", "break:other", not bad, site, "every other formula is returned unchanged as a single formula", construct=bad or None)
     a = fx.fn("ht::break_equivalences_annotated_formula")
-    va = sym.Eval(fx, inline_depth=0).function(a)
-    ok = va[:2] == ("ctor", "Specification")
+    from ..leaves import norm as _norm
+    AF = ("param", "$af")
+    va = _norm(sym.Eval(fx, inline_depth=0).function(a, [AF]))
+    # the parts are collected into a Specification: through a struct literal, or through FromIterator
+    f = dict(va[2]).get("formulas") if va[:2] == ("ctor", "Specification") else va
+    parts = ("call", "ht::break_equivalences_formula", (("fieldof", AF, "formula"),))
+    ok = isinstance(f, tuple) and f[:2] == ("call", "Iterator::map") and f[2][0] in (("call", "Iterator::enumerate", (("fieldof", parts, "formulas"),)), ("call", "Iterator::enumerate", (parts,)))
     if ok:
-        f = dict(va[2])["formulas"]
-        ok = f[:2] == ("call", "Iterator::map") and f[2][0] == ("call", "Iterator::enumerate", (("fieldof", ("call", "ht::break_equivalences_formula", (("place", "annotated_formula.formula"),)), "formulas"),))
         cl = f[2][1]
-        if ok and cl[0] == "closure" and len(cl[1]) == 1:
+        if cl[0] == "closure" and len(cl[1]) == 1:
             # the closure applied to the pair (index, part): whichever way its parameter is destructured
-            one = sym.subst(cl[2], {cl[1][0]: ("list", (("param", "$i"), ("param", "$part")))})
+            one = _norm(sym.subst(cl[2], {cl[1][0]: ("list", (("param", "$i"), ("param", "$part")))}))
             g = dict(one[2]) if one[:2] == ("ctor", "AnnotatedFormula") else {}
-            ok = g.get("role") == ("place", "annotated_formula.role") and g.get("direction") == ("place", "annotated_formula.direction") and g.get("formula") == ("param", "$part") \
-                and g.get("name") == ("format", "{}_{}", (("place", "annotated_formula.name"), ("param", "$i")))
+            ok = g.get("role") == ("fieldof", AF, "role") and g.get("direction") == ("fieldof", AF, "direction") and g.get("formula") == ("param", "$part") \
+                and g.get("name") == ("format", "{}_{}", (("fieldof", AF, "name"), ("param", "$i")))
         else:
             ok = False
     ctx.add("TPL", "break:annotated", ok, ctx.site(a), "the annotated version keeps role and direction of the original for every part", construct=va)
@@ -211,6 +216,10 @@ def classify_read(b, pm, n, flag, depth=0):
                     kind = "pass-through"
             elif p.get("k") == "MethodCall" and (callee(p) or "").endswith("Problem::decompose") and cur in p["args"]:
                 kind = "decompose-arg"
+            elif p.get("k") in ("Call", "MethodCall") and "inlined" in p and any(a_ is cur for a_ in p.get("args", [])):
+                # handed to a later-extracted helper: the helper's body is attached to this call with the argument written in place of the
+                # parameter, so every use the helper makes of the flag is classified on its own, right there
+                kind = "argument of an extracted helper (its uses are classified where they occur)"
             elif p.get("k") == "Match" and p.get("mac") == "matches":
                 kind = None
             return kind
